@@ -612,7 +612,7 @@ impl Sign {
                 &Some(Message::AckOperation(self.address, operation)),
             )?;
 
-            let mut chunks_sent = 0;
+            let mut chunks_sent: u16 = 0;
             for item in data.clone() {
                 for (i, chunk) in item.chunks(16).enumerate() {
                     // Safe to unwrap the Data creation as the chunk will obviously always be less than 255 bytes.
@@ -620,7 +620,8 @@ impl Sign {
                         Message::SendData(Offset((i * 16) as u16), Data::try_new(chunk).unwrap()),
                         &None,
                     )?;
-                    chunks_sent += 1;
+                    // The chunk count travels in a 16-bit field; count modulo 2^16 like the sign does.
+                    chunks_sent = chunks_sent.wrapping_add(1);
                 }
             }
 
